@@ -323,6 +323,8 @@ def _built_in_one(prog, rep, rid, ctx, f, ps, where, root, op) -> bool:
         judged = True
         comp = v[3][1]
         lid, dom = comp[3][0][1], strip_epochs(comp[3][0][2])
+        while dom[0] == "call" and dom[1] in (("g", "list"), ("g", "tuple")) and len(dom[2]) == 1:
+            dom = dom[2][0]  # a materialised zip walks the same pairs
         views = list(dom[2]) if dom[0] == "call" and dom[1] == ("g", "zip") and len(dom[2]) == 2 else []
 
         def whole(view, rootsym):
@@ -341,7 +343,8 @@ def _built_in_one(prog, rep, rid, ctx, f, ps, where, root, op) -> bool:
         a = ("sub", ("f", SELF, "_bloom", 0), ("pos", lid), 0)
         b = ("sub", ("f", SECOND, "_bloom", 0), ("pos", lid), 0)
         wants = [canon(("bin", op, a, b))] if op != "+" else [canon(("bin", "+", a, b)), canon(("call", ("g", "min"), (norm(("bin", "+", a, b)), C(2**32 - 1)), ()))]
-        got = canon(posform(strip_epochs(comp[2])))
+        from ..expr import renorm
+        got = canon(renorm(posform(strip_epochs(comp[2]))))
         if got not in wants:
             rep.bad(rid, where, f"element {nshow(comp[2])}", f"result cell is {nshow(comp[2])}; expected self cell {op} second cell at the same position", sets[-1].where())
             return True
@@ -356,6 +359,13 @@ def combine_rule(prog, rep, rid, ctx, fname, op):
     f = prog.method(ctx, fname)
     ps = paths(prog, ctx, f)
     where = f"{ctx}.{fname}"
+    from ..common import lazy_iterator_reread
+    rr = lazy_iterator_reread(f)
+    if rr:
+        rep.bad(rid, where, f"one-shot iterator {rr[0][0]} read twice",
+                f"{fname} binds {rr[0][0]} to a one-shot iterator and reads it at more than one place: whichever reader comes second (a retry after an exception, a second pass) "
+                "sees an exhausted or half-consumed iterator, so the result is built from fewer, shifted cells", f"{f.module.relpath}:{rr[0][1]}")
+        return
     root = family_root(prog, ctx)
     stores = []
     for p in ps:
@@ -401,7 +411,8 @@ def combine_rule(prog, rep, rid, ctx, fname, op):
             else:
                 wants.append(canon(("bin", op, x, y)))
         # ... or the same cells named by position (zip / enumerate / slices of the arrays)
-        if v in wants or canon(posform(strip_epochs(e.value))) in [canon(posform(w)) for w in wants]:
+        from ..expr import renorm
+        if v in wants or canon(renorm(posform(strip_epochs(e.value)))) in [canon(renorm(posform(w))) for w in wants]:
             good += 1
         else:
             rep.bad(rid, where, f"store {nshow(e.value)}",
